@@ -124,3 +124,41 @@ Definition process_response (fixed : bool) (c : cfg) (rq : request) (h : headers
       end
     else h2
   end.
+
+(* ---- app.py: cors_enable wiring.  A middleware component is abstracted to
+   "is it a CORSMiddleware instance"; App.__init__ appends one instance when
+   cors_enable is set, add_middleware refuses a batch that would make two. *)
+Definition count_cors (l : list bool) : nat := List.length (List.filter (fun b => b) l).
+
+(* None = ValueError; Some l' = the new _unprepared_middleware *)
+Definition add_middleware (cors_enable : bool) (unprepared batch : list bool) : option (list bool) :=
+  match batch with
+  | [] => Some unprepared
+  | _ => if cors_enable && Nat.ltb 1 (count_cors (unprepared ++ batch))
+         then None else Some (unprepared ++ batch)
+  end.
+
+Definition app_init (cors_enable : bool) (middleware : list bool) : option (list bool) :=
+  add_middleware cors_enable [] (if cors_enable then middleware ++ [true] else middleware).
+
+(* later add_middleware calls; a rejected call raises and leaves the list as it was *)
+Fixpoint add_all (cors_enable : bool) (unprepared : list bool) (batches : list (list bool)) : list bool :=
+  match batches with
+  | [] => unprepared
+  | b :: tl =>
+    match add_middleware cors_enable unprepared b with
+    | None => add_all cors_enable unprepared tl
+    | Some u => add_all cors_enable u tl
+    end
+  end.
+
+(* which add_middleware calls are accepted (true) / raise ValueError (false) *)
+Fixpoint add_all_trace (cors_enable : bool) (unprepared : list bool) (batches : list (list bool)) : list bool :=
+  match batches with
+  | [] => []
+  | b :: tl =>
+    match add_middleware cors_enable unprepared b with
+    | None => false :: add_all_trace cors_enable unprepared tl
+    | Some u => true :: add_all_trace cors_enable u tl
+    end
+  end.
